@@ -90,6 +90,37 @@ trait Scenario {
     fn smoke(&mut self, k: usize, round: u64) -> Result<(), String>;
 }
 
+/// Reads a u64 that lives in memory owned by another port (zero-copy payload).  The read is
+/// first done in a forked child: if the segment behind the pointer has been unmapped the child
+/// dies of SIGSEGV/SIGBUS and the probe reports it instead of killing the harness.
+fn safe_read_u64(p: *const u64) -> Result<u64, String> {
+    unsafe {
+        let pid = libc::fork();
+        if pid < 0 {
+            return Err("fork-failed".into());
+        }
+        if pid == 0 {
+            let v = core::ptr::read_volatile(p);
+            libc::_exit(if v == 0 { 0 } else { 0 });
+        }
+        let mut status: libc::c_int = 0;
+        loop {
+            let r = libc::waitpid(pid, &mut status, 0);
+            if r == pid { break; }
+            if r < 0 && *libc::__errno_location() != libc::EINTR { return Err("waitpid-failed".into()); }
+        }
+        if libc::WIFSIGNALED(status) {
+            return Err(format!("payload-unreadable-signal-{}", libc::WTERMSIG(status)));
+        }
+        Ok(core::ptr::read_volatile(p))
+    }
+}
+
+fn canary(p: *const u64, expected: u64) -> Result<(), String> {
+    let v = safe_read_u64(p)?;
+    if v == expected { Ok(()) } else { Err(format!("canary:{:x}", v)) }
+}
+
 fn node_smoke<S: Service>(n: &Node<S>) -> Result<(), String> {
     let mut cnt = 0;
     res(Node::<S>::list(n.config(), |_| {
@@ -208,8 +239,7 @@ impl<S: Service> Scenario for PubSub<S> {
                 if v == CANARY_LOAN { Ok(()) } else { Err(format!("canary:{:x}", v)) }
             }
             3 => {
-                let v = *self.sample.as_ref().unwrap().payload();
-                if v == CANARY_SENT { Ok(()) } else { Err(format!("canary:{:x}", v)) }
+                canary(self.sample.as_ref().unwrap().payload() as *const u64, CANARY_SENT)
             }
             _ => Ok(()),
         }
@@ -412,8 +442,138 @@ impl<S: Service> Scenario for ReqRes<S> {
                 Ok(())
             }
             4 => {
-                let v = *self.response.as_ref().unwrap().payload();
-                if v == CANARY_RESP { Ok(()) } else { Err(format!("canary:{:x}", v)) }
+                canary(self.response.as_ref().unwrap().payload() as *const u64, CANARY_RESP)
+            }
+            _ => Ok(()),
+        }
+    }
+}
+
+// ------------------------------------------------------------------------------------------
+// request-response, two requests of ONE client in flight (multi-channel response connection)
+//   slots: node svc client server pending_b pending_a response_b active_a active_b
+//   pending_a (channel 0, the older request) and pending_b (channel 1); response_b is a borrowed
+//   Response of pending_b.  Probes run in slot order, so in every round pending_b polls before
+//   pending_a, and the active requests answer AFTER the pending responses drained: at the end of a
+//   round every pending response whose active request is alive has exactly one delivered but
+//   unreceived response.  Each pending response must receive exactly what was sent to it.
+// ------------------------------------------------------------------------------------------
+struct ReqRes2<S: Service> {
+    node: Option<Node<S>>,
+    svc: Option<request_response::PortFactory<S, u64, (), u64, ()>>,
+    client: Option<Client<S, u64, (), u64, ()>>,
+    server: Option<Server<S, u64, (), u64, ()>>,
+    pending_b: Option<PendingResponse<S, u64, (), u64, ()>>,
+    pending_a: Option<PendingResponse<S, u64, (), u64, ()>>,
+    response_b: Option<Response<S, u64, ()>>,
+    active_a: Option<ActiveRequest<S, u64, (), u64, ()>>,
+    active_b: Option<ActiveRequest<S, u64, (), u64, ()>>,
+    expected_a: Vec<u64>,
+    expected_b: Vec<u64>,
+}
+
+const REQ_A: u64 = 0xC17C_0000_0000_000A;
+const REQ_B: u64 = 0xC17C_0000_0000_000B;
+
+impl<S: Service> ReqRes2<S> {
+    fn build(cfg: &Config, _nn: usize) -> Self {
+        let node = NodeBuilder::new().name(&node_name(0)).config(cfg).create::<S>().expect("node");
+        let svc = node
+            .service_builder(&service_name())
+            .request_response::<u64, u64>()
+            .max_loaned_requests(4)
+            .max_active_requests_per_client(4)
+            .max_response_buffer_size(4)
+            .max_borrowed_responses_per_pending_response(4)
+            .create()
+            .expect("create service");
+        let client = svc.client_builder().create().expect("client");
+        let server = svc.server_builder().max_loaned_responses_per_request(4).create().expect("server");
+        let pending_a = client.loan_uninit().expect("loan").write_payload(REQ_A).send().expect("send request a");
+        let pending_b = client.loan_uninit().expect("loan").write_payload(REQ_B).send().expect("send request b");
+        let active_a = server.receive().expect("receive").expect("request a");
+        let active_b = server.receive().expect("receive").expect("request b");
+        assert_eq!(*active_a.payload(), REQ_A);
+        assert_eq!(*active_b.payload(), REQ_B);
+        active_b.loan_uninit().expect("loan response").write_payload(CANARY_RESP).send().expect("send response b");
+        let response_b = pending_b.receive().expect("receive response").expect("response b");
+        // one delivered, unreceived response for each pending response
+        active_a.loan_uninit().expect("loan response").write_payload(0xA000).send().expect("send response a");
+        active_b.loan_uninit().expect("loan response").write_payload(0xB000).send().expect("send response b2");
+        ReqRes2 {
+            node: Some(node), svc: Some(svc), client: Some(client), server: Some(server),
+            pending_b: Some(pending_b), pending_a: Some(pending_a), response_b: Some(response_b),
+            active_a: Some(active_a), active_b: Some(active_b),
+            expected_a: vec![0xA000], expected_b: vec![0xB000],
+        }
+    }
+    fn drain(p: &PendingResponse<S, u64, (), u64, ()>, req: u64, expected: &mut Vec<u64>) -> Result<(), String> {
+        canary(p.payload() as *const u64, req)?;
+        let mut got = vec![];
+        while let Some(r) = res(p.receive())? {
+            got.push(safe_read_u64(r.payload() as *const u64)?);
+            if got.len() > 16 { break; }
+        }
+        let want = core::mem::take(expected);
+        if got == want { Ok(()) } else {
+            Err(format!("received-[{}]-sent-[{}]", got.iter().map(|x| format!("{:x}", x)).collect::<Vec<_>>().join(","), want.iter().map(|x| format!("{:x}", x)).collect::<Vec<_>>().join(",")))
+        }
+    }
+}
+
+impl<S: Service> Scenario for ReqRes2<S> {
+    fn names(&self) -> Vec<&'static str> {
+        vec!["node", "svc", "client", "server", "pending_b", "pending_a", "response_b", "active_a", "active_b"]
+    }
+    fn alive(&self, k: usize) -> bool {
+        match k { 0 => self.node.is_some(), 1 => self.svc.is_some(), 2 => self.client.is_some(), 3 => self.server.is_some(), 4 => self.pending_b.is_some(), 5 => self.pending_a.is_some(), 6 => self.response_b.is_some(), 7 => self.active_a.is_some(), 8 => self.active_b.is_some(), _ => false }
+    }
+    fn drop_slot(&mut self, k: usize) {
+        match k { 0 => drop(self.node.take()), 1 => drop(self.svc.take()), 2 => drop(self.client.take()), 3 => drop(self.server.take()), 4 => drop(self.pending_b.take()), 5 => drop(self.pending_a.take()), 6 => drop(self.response_b.take()), 7 => drop(self.active_a.take()), 8 => drop(self.active_b.take()), _ => {} }
+    }
+    fn smoke(&mut self, k: usize, round: u64) -> Result<(), String> {
+        match k {
+            0 => node_smoke(self.node.as_ref().unwrap()),
+            1 => {
+                let s = self.svc.as_ref().unwrap();
+                let _ = s.dynamic_config().number_of_clients();
+                let mut c = 0;
+                res(s.nodes(|_| { c += 1; CallbackProgression::Continue }))?;
+                if c == 0 { Err("service-lists-no-node".into()) } else { Ok(()) }
+            }
+            2 => {
+                // a third request in flight for the duration of the probe
+                let c = self.client.as_ref().unwrap();
+                drop(res(res(c.loan_uninit())?.write_payload(8000 + round).send())?);
+                Ok(())
+            }
+            3 => {
+                let s = self.server.as_ref().unwrap();
+                while let Some(a) = res(s.receive())? {
+                    let v = safe_read_u64(a.payload() as *const u64)?;
+                    if !(8000..9000).contains(&v) { return Err(format!("received-{:x}", v)); }
+                    res(res(a.loan_uninit())?.write_payload(9000 + round).send())?;
+                }
+                Ok(())
+            }
+            4 => Self::drain(self.pending_b.as_ref().unwrap(), REQ_B, &mut self.expected_b),
+            5 => Self::drain(self.pending_a.as_ref().unwrap(), REQ_A, &mut self.expected_a),
+            6 => canary(self.response_b.as_ref().unwrap().payload() as *const u64, CANARY_RESP),
+            7 => {
+                let a = self.active_a.as_ref().unwrap();
+                canary(a.payload() as *const u64, REQ_A)?;
+                let v = 0xA001 + round;
+                let r = res(res(a.loan_uninit())?.write_payload(v).send());
+                if self.pending_a.is_some() { r?; self.expected_a.push(v); }
+                Ok(())
+            }
+            8 => {
+                let a = self.active_b.as_ref().unwrap();
+                canary(a.payload() as *const u64, REQ_B)?;
+                let v = 0xB001 + round;
+                let r = res(res(a.loan_uninit())?.write_payload(v).send());
+                if self.pending_b.is_some() { r?; self.expected_b.push(v); }
+                Ok(())
             }
             _ => Ok(()),
         }
@@ -731,7 +891,7 @@ fn nth_permutation(n: usize, mut idx: u64) -> Vec<usize> {
 }
 
 fn nslots_of(pattern: &str, nn: usize) -> usize {
-    2 * nn + match pattern { "pubsub" => 4, "event" => 2, "reqres" => if nn == 1 { 5 } else { 4 }, "blackboard" => 4, _ => 0 }
+    2 * nn + match pattern { "pubsub" => 4, "event" => 2, "reqres" => if nn == 1 { 5 } else { 4 }, "blackboard" => 4, "reqres2" => 7, _ => 0 }
 }
 
 fn orders(a: &[String], n: usize) -> Vec<Vec<usize>> {
@@ -759,6 +919,38 @@ fn orders(a: &[String], n: usize) -> Vec<Vec<usize>> {
                 })
                 .collect()
         }
+        // family "server side first" of reqres2: every order of the server-side slots {server, active_a,
+        // active_b} (3, 7, 8), followed by client-side orders of {node, svc, client, pending_b, pending_a,
+        // response_b}: all 720 (count = 0) or `count` seeded ones per server-side order
+        "fam" => {
+            let shard: u64 = a[5].parse().unwrap();
+            let nshards: u64 = a[6].parse().unwrap();
+            let seed: u64 = a[7].parse().unwrap();
+            let count: u64 = a[8].parse().unwrap();
+            let srv = [3usize, 7, 8];
+            let cli = [0usize, 1, 2, 4, 5, 6];
+            let mut rng = Rng(seed ^ 0xFA17);
+            let mut v = vec![];
+            let mut idx = 0u64;
+            for so in 0..6u64 {
+                let sp = nth_permutation(3, so);
+                let ncli = if count == 0 { 720 } else { count };
+                for c in 0..ncli {
+                    let cp = if count == 0 { nth_permutation(6, c) } else {
+                        let mut p: Vec<usize> = (0..6).collect();
+                        for i in (1..6).rev() { let j = rng.below(i as u64 + 1) as usize; p.swap(i, j); }
+                        p
+                    };
+                    if idx % nshards == shard {
+                        let mut o: Vec<usize> = sp.iter().map(|&i| srv[i]).collect();
+                        o.extend(cp.iter().map(|&i| cli[i]));
+                        v.push(o);
+                    }
+                    idx += 1;
+                }
+            }
+            v
+        }
         m => panic!("unknown mode {}", m),
     }
 }
@@ -776,6 +968,7 @@ fn run_variant<S: Service>(a: &[String], fs: bool) {
             "event" => run_perm::<S, Ev<S>>(variant, pattern, nn, fs, &order, case_no, &Ev::<S>::build, &Ev::<S>::recreate),
             "reqres" => run_perm::<S, ReqRes<S>>(variant, pattern, nn, fs, &order, case_no, &ReqRes::<S>::build, &ReqRes::<S>::recreate),
             "blackboard" => run_perm::<S, Bb<S>>(variant, pattern, nn, fs, &order, case_no, &Bb::<S>::build, &Bb::<S>::recreate),
+            "reqres2" => run_perm::<S, ReqRes2<S>>(variant, pattern, 1, fs, &order, case_no, &ReqRes2::<S>::build, &ReqRes::<S>::recreate),
             p => panic!("unknown pattern {}", p),
         }
     }
